@@ -762,7 +762,7 @@ func init() {
 	register(&Property{
 		ID:          "C02",
 		Level:       "other",
-		Explanation: "Decides the local gates and derivations the gap-free certificate chain rests on, on every path: C02-gate — each sendCertificate call in the loop is reachable only on !ExistPendingCerts of a CheckPendingCertificatesStatus call of the same iteration, and no second send follows without a new check; C02-failclosed — every error edge of the status check (storage read, GetCertificateHeader, status update) returns ExistPendingCerts=true, a certificate found open after its status was refreshed forces the result to true (boolean accumulator tracked path-sensitively), and the open/closed predicates and NonSettledStatuses are read from their bodies and initialiser; C02-submit — SendCertificate is invoked from one function, itself called only from the gated loop; C02-next — every non-error return of getNextHeightAndPreviousLER is matched, with its dominating branch facts, against {settled → (Height+1, NewLocalExitRoot); in error with previous LER → (Height, *PreviousLocalExitRoot); in error at height 0 / no certificate → (0, start LER); in error → (Height, new LER of the stored, existing, settled certificate at Height-1)} and is unreachable for an open certificate; C02-range — getLastSentBlockAndRetryCount's return cases and the FromBlock = previous+1 / ToBlock / RetryCount / events provenance in GetCertificateBuildParamsInternal; C02-retry — a retry whose first block differs is refused, both flows return parameters only after VerifyBuildParams, the prover's resend literal copies the range of the stored header; C02-store — the stored header takes Height/LERs/ID from the sent certificate and its answer, range and retry count from the parameters, only after the Agglayer accepted it. The global 'settled certificates contain every event exactly once over all schedules' is a protocol property over interleavings and is not decided. Added after round 7: C02-pk (keys of the certificate tables, shared with C13), C02-inputs (start-up recovery decides on the results of all three lookups; an error is never read as absent).",
+		Explanation: "Decides the local gates and derivations the gap-free certificate chain rests on, on every path: C02-gate — each sendCertificate call in the loop is reachable only on !ExistPendingCerts of a CheckPendingCertificatesStatus call of the same iteration, and no second send follows without a new check; C02-failclosed — every error edge of the status check (storage read, GetCertificateHeader, status update) returns ExistPendingCerts=true, a certificate found open after its status was refreshed forces the result to true (boolean accumulator tracked path-sensitively), and the open/closed predicates and NonSettledStatuses are read from their bodies and initialiser; C02-submit — SendCertificate is invoked from one function, itself called only from the gated loop; C02-next — every non-error return of getNextHeightAndPreviousLER is matched, with its dominating branch facts, against {settled → (Height+1, NewLocalExitRoot); in error with previous LER → (Height, *PreviousLocalExitRoot); in error at height 0 / no certificate → (0, start LER); in error → (Height, new LER of the stored, existing, settled certificate at Height-1)} and is unreachable for an open certificate; C02-range — getLastSentBlockAndRetryCount's return cases and the FromBlock = previous+1 / ToBlock / RetryCount / events provenance in GetCertificateBuildParamsInternal; C02-retry — a retry whose first block differs is refused, both flows return parameters only after VerifyBuildParams, the prover's resend literal copies the range of the stored header; C02-store — the stored header takes Height/LERs/ID from the sent certificate and its answer, range and retry count from the parameters, only after the Agglayer accepted it. The global 'settled certificates contain every event exactly once over all schedules' is a protocol property over interleavings and is not decided. Added after round 7: C02-pk (keys of the certificate tables, shared with C13), C02-inputs (start-up recovery decides on the results of all three lookups; an error is never read as absent). Added after round 9: C02-meta (shared with C03-meta) and C02-decide (shared with C13-decide).",
 		Rules: []Rule{
 			{ID: "C02-gate", Floor: 2, Run: c02Gate, Text: "[DOM] send only on !ExistPendingCerts of a fresh status check"},
 			{ID: "C02-failclosed", Floor: 9, Run: c02FailClosed, Text: "[DOM]+[PROV]+bool env: errors and open certificates report pending=true; predicate definitions"},
@@ -775,6 +775,8 @@ func init() {
 			{ID: "C02-recover", Floor: 8, Run: shared("C02-recover", c13Recover), Text: "(shared with C13-recover) a record rebuilt from an Agglayer header keeps the certificate's real block range"},
 			{ID: "C02-cut", Floor: 13, Run: shared("C02-cut", c17Filter), Text: "(shared with C17-filter) a cut keeps the events of its range and copies every other parameter, RetryCount included"},
 			{ID: "C02-ler", Floor: 9, Run: shared("C02-ler", c03NewLER), Text: "(shared with C03-newler) the new local exit root follows from the exits of the range"},
+			{ID: "C02-meta", Floor: 14, Run: shared("C02-meta", c03Meta), Text: "(shared with C03-meta) the block range a record rebuilt from an Agglayer header gets is decoded with the widths it was written with: a narrower offset makes the next certificate re-settle exits"},
+			{ID: "C02-decide", Floor: 10, Run: shared("C02-decide", c13Decide), Text: "(shared with C13-decide) start-up reconciliation never adopts the status of a different certificate at the same height"},
 			{ID: "C02-store", Floor: 10, Run: c02Store, Text: "[FIELDMAP]+[DOM] stored header fields; store only after accept; save error reported"},
 		},
 	})
